@@ -13,7 +13,7 @@ import (
 )
 
 func body(r *eng.Run) {
-	r.Rule("part 1: nested loops allowlist x multihash code x digest length x CID form, each ValidateCid result compared with the reference decision (a distinct non-trivial family = (allowlist, expected class)); part 2: all words of bounded length over the 9-letter CID-kind alphabet x entry point x access mode x configuration on a fresh recording block service (non-trivial = every case; each has its own canonical id)")
+	r.Rule("part 1: nested loops allowlist x multihash code x digest length x CID form, each ValidateCid result compared with the reference decision (a distinct non-trivial family = (allowlist, expected class)); part 3: two services over ONE blockstore value with different allowlists x context {plain, session of A, session of B} x called service x Get entry point x words of length <= 2 (thorough 3), judged by the allowlist of the CALLED service; part 2: all words of bounded length over the 9-letter CID-kind alphabet x entry point x access mode x configuration on a fresh recording block service (non-trivial = every case; each has its own canonical id)")
 	r.Assume("go-cid / go-multihash encode and decode multihashes correctly")
 	r.Assume("the reference table of the default allowlist (numeric multicodec values) is the intended one")
 	validatorPart(r)
@@ -42,8 +42,36 @@ func body(r *eng.Run) {
 	if n := skipped.Load(); n > 0 {
 		r.Incomplete(fmt.Sprintf("budget expired: %d of %d block service cases not executed", n, len(ks)))
 	}
-	for i := 0; i < len(ks); i += len(ks)/4 + 1 {
+	for i := 0; i < len(ks); i += len(ks)/3 + 1 {
 		r.Sample(ks[len(ks)-1-i].id())
+	}
+
+	// cross-service family: two services over one blockstore value
+	cs := crossCases(r.Thorough())
+	r.Set("cross_service_cases", len(cs))
+	var cskipped atomic.Int64
+	eng.ParFor(len(cs), func(i int) {
+		if r.Expired() {
+			cskipped.Add(1)
+			return
+		}
+		k := cs[i]
+		var v *eng.Violation
+		if pv := eng.Guard(k.entry, func() { v = runCross(r, k, false) }); pv != nil {
+			v = pv
+		}
+		r.Eval(1)
+		r.Distinct(k.id())
+		if v != nil {
+			v.Replay = map[string]string{"case": k.id()}
+			r.Report(v)
+		}
+	})
+	if n := cskipped.Load(); n > 0 {
+		r.Incomplete(fmt.Sprintf("budget expired: %d of %d cross-service cases not executed", n, len(cs)))
+	}
+	for i := 0; i < len(cs); i += len(cs)/2 + 1 {
+		r.Sample(cs[len(cs)-1-i].id())
 	}
 }
 
@@ -57,6 +85,20 @@ func replay(r *eng.Run, raw json.RawMessage) {
 	}
 	if strings.HasPrefix(rp.Case, "val/") {
 		replayValidate(r, rp.Case)
+		return
+	}
+	if k, ok := parseCross(rp.Case); ok {
+		var v *eng.Violation
+		if pv := eng.Guard(k.entry, func() { v = runCross(r, k, true) }); pv != nil {
+			v = pv
+		}
+		r.Eval(1)
+		if v != nil {
+			v.Replay = map[string]string{"case": k.id()}
+			r.Report(v)
+		} else {
+			fmt.Println("  replay: no violation")
+		}
 		return
 	}
 	f := strings.Split(rp.Case, "/")
